@@ -19,6 +19,15 @@ theorem allStored_cons (g : Geoms) (e : Nat) (r : List Nat) :
 
 /-! ### closed forms -/
 
+/-- the hex text of a byte string -/
+def hexText (bytes : List Nat) : String := String.ofList (hexChars bytes)
+
+@[simp] theorem geometryToWkbString_lineString (l : Line) :
+    geometryToWkbString (.lineString l) = .ok (hexText (wkbLineString l)) := rfl
+
+@[simp] theorem geometryToWkbString_multiLineString (ls : List Line) :
+    geometryToWkbString (.multiLineString ls) = .ok (hexText (wkbMultiLineString ls)) := rfl
+
 theorem lookupAll_eq (g : Geoms) (ids : List Nat) :
     lookupAll g ids = if allStored g ids then .ok (ids.map (geomD g)) else .error .failed := by
   induction ids with
@@ -91,7 +100,10 @@ theorem generateTreeOutput_eq (g : Geoms) (f : Fmt) (t : Tree) :
           .ok (.features (t.map fun kv => createGeojsonFeature kv.2.et (geomD g kv.2.et.edge)))
         else .error .failed
       | .wkt => if allStored g (treeIds t) then .ok (.wkt ((treeIds t).map (geomD g))) else .error .failed
-      | .wkb => if allStored g (treeIds t) then .ok (.wkb ((treeIds t).map (geomD g))) else .error .failed := by
+      | .wkb =>
+        if allStored g (treeIds t) then
+          .ok (.wkb ((treeIds t).map (geomD g)) (hexText (wkbMultiLineString ((treeIds t).map (geomD g)))))
+        else .error .failed := by
   have h1 : (t.values.map (·.et)).map (·.edge) = treeIds t := by
     simp [Tree.values, treeIds, List.map_map, Function.comp_def]
   have h2 : t.values.map (·.et.edge) = treeIds t := by
@@ -264,6 +276,93 @@ theorem lookup_insertKv_other (kvs : List (String × Json)) (k k' : String) (v :
     rw [if_neg h, lookup_append_single_of_none kvs k k' v h']
     have h1 : ¬ k = k' := fun e => hk e.symm
     simp [h1]
+
+/-! ### hex text -/
+
+/-- reading of one upper-case hex digit -/
+def unhexDigit (c : Char) : Option Nat :=
+  if 48 ≤ c.toNat ∧ c.toNat ≤ 57 then some (c.toNat - 48)
+  else if 65 ≤ c.toNat ∧ c.toNat ≤ 70 then some (c.toNat - 55)
+  else none
+
+/-- reading of a hex text, two digits per byte -/
+def unhexChars : List Char → Option (List Nat)
+  | [] => some []
+  | [_] => none
+  | a :: b :: r =>
+    match unhexDigit a, unhexDigit b, unhexChars r with
+    | some x, some y, some l => some ((16 * x + y) :: l)
+    | _, _, _ => none
+
+theorem unhexDigit_hexUpperDigit : ∀ n, n < 16 → unhexDigit (hexUpperDigit n) = some n := by decide
+
+theorem unhexChars_hexChars (bs : List Nat) (h : ∀ b ∈ bs, b < 256) : unhexChars (hexChars bs) = some bs := by
+  induction bs with
+  | nil => rfl
+  | cons b r ih =>
+    have hb : b < 256 := h b List.mem_cons_self
+    have hr := ih (fun x hx => h x (List.mem_cons_of_mem _ hx))
+    have h1 : b / 16 < 16 := by omega
+    have h2 : b % 16 < 16 := by omega
+    simp only [hexChars, unhexChars, unhexDigit_hexUpperDigit _ h1, unhexDigit_hexUpperDigit _ h2, hr]
+    have : 16 * (b / 16) + b % 16 = b := by omega
+    rw [this]
+
+theorem hexChars_length (bs : List Nat) : (hexChars bs).length = 2 * bs.length := by
+  induction bs with
+  | nil => rfl
+  | cons b r ih => simp [hexChars, ih]; omega
+
+theorem leBytes_length (k n : Nat) : (leBytes k n).length = k := by
+  induction k generalizing n with
+  | zero => rfl
+  | succ k ih => simp [leBytes, ih]
+
+theorem leBytes_lt (k n : Nat) : ∀ b ∈ leBytes k n, b < 256 := by
+  induction k generalizing n with
+  | zero => intro b hb; simp [leBytes] at hb
+  | succ k ih =>
+    intro b hb
+    simp only [leBytes, List.mem_cons] at hb
+    rcases hb with rfl | hb
+    · omega
+    · exact ih _ b hb
+
+theorem wkbPoints_lt (l : Line) : ∀ b ∈ wkbPoints l, b < 256 := by
+  intro b hb
+  simp only [wkbPoints, List.mem_append, List.mem_flatMap] at hb
+  rcases hb with hb | ⟨p, _, hb | hb⟩
+  · exact leBytes_lt _ _ b hb
+  · exact leBytes_lt _ _ b hb
+  · exact leBytes_lt _ _ b hb
+
+theorem wkbLineString_lt (l : Line) : ∀ b ∈ wkbLineString l, b < 256 := by
+  intro b hb
+  simp only [wkbLineString, List.mem_cons, List.mem_append] at hb
+  rcases hb with rfl | hb | hb
+  · omega
+  · exact leBytes_lt _ _ b hb
+  · exact wkbPoints_lt l b hb
+
+theorem wkbMultiLineString_lt (ls : List Line) : ∀ b ∈ wkbMultiLineString ls, b < 256 := by
+  intro b hb
+  simp only [wkbMultiLineString, List.mem_cons, List.mem_append, List.mem_flatMap] at hb
+  rcases hb with rfl | (hb | hb) | ⟨l, _, hb⟩
+  · omega
+  · exact leBytes_lt _ _ b hb
+  · exact leBytes_lt _ _ b hb
+  · exact wkbLineString_lt l b hb
+
+theorem wkbPoints_length (l : Line) : (wkbPoints l).length = 4 + 16 * l.length := by
+  have : ∀ l : Line, (l.flatMap fun p => leBytes 8 (widenF32 p.x) ++ leBytes 8 (widenF32 p.y)).length = 16 * l.length := by
+    intro l
+    induction l with
+    | nil => rfl
+    | cons p r ih => simp [List.flatMap_cons, leBytes_length, ih]; omega
+  simp [wkbPoints, leBytes_length, this]
+
+theorem wkbLineString_length (l : Line) : (wkbLineString l).length = 9 + 16 * l.length := by
+  simp [wkbLineString, leBytes_length, wkbPoints_length]; omega
 
 /-! ### loaders -/
 
